@@ -280,6 +280,21 @@ pub fn instances(vars: &[VarDecl], level: u8) -> Vec<Con> {
             (vec![2, 1, 2], vec![1, 2, 1], 2),
             (vec![2, 0, 1], vec![2, 1, 0], 2),
         ] {
+            // (the second task set also under the five non-default propagation methods)
+            if d == vec![2, 1, 2] {
+                for method in 0..6u8 {
+                    let opts = CumOpts { method, ..CumOpts::default_opts() };
+                    if opts != CumOpts::default_opts() {
+                        out.push(Con::Cumulative {
+                            starts: vec![View::id(x), View::id(y), View::id(z)],
+                            durations: d.clone(),
+                            usages: u.clone(),
+                            cap,
+                            opts,
+                        });
+                    }
+                }
+            }
             out.push(Con::Cumulative {
                 starts: vec![View::id(x), View::id(y), View::id(z)],
                 durations: d,
